@@ -36,7 +36,10 @@ import (
 	"github.com/elys-network/elys/app"
 	ammtypes "github.com/elys-network/elys/x/amm/types"
 	atypes "github.com/elys-network/elys/x/assetprofile/types"
+	commitmenttypes "github.com/elys-network/elys/x/commitment/types"
 	oracletypes "github.com/elys-network/elys/x/oracle/types"
+	parametertypes "github.com/elys-network/elys/x/parameter/types"
+	tokenomicstypes "github.com/elys-network/elys/x/tokenomics/types"
 )
 
 const ChainID = "elystestnet-1"
@@ -75,6 +78,13 @@ type Config struct {
 	PriceExpiry   uint64 // oracle Params.PriceExpiryTime (s)
 	LifeTimeBlock uint64 // oracle Params.LifeTimeInBlocks
 	Probes        bool   // install pre-msg / post-tx / module probes
+	VestBlocks    int64  // commitment vesting schedule length for Eden->uelys (0 = module default)
+	VestNowFactor int64
+	MaxVestings   int64
+	EnableVestNow bool
+	EdenClaimed   int64  // claimable Eden every user starts with (genesis commitment records)
+	Inflation     uint64 // tokenomics LM / staking reward Eden per year (0 = none)
+	BlocksPerYear uint64 // parameter TotalBlocksPerYear (0 = default)
 	LevelDBDir    string // "" => MemDB
 	GenesisMut    func(a *app.ElysApp, gs app.GenesisState) // optional extra genesis edits
 }
@@ -322,6 +332,9 @@ func BuildGenesis(a *app.ElysApp, cfg Config, all []*Actor, feeders []*Actor, vo
 		ap.EntryList = append(ap.EntryList, atypes.Entry{BaseDenom: d.Denom, Denom: d.Denom, Decimals: d.Decimals, DisplayName: d.Display, CommitEnabled: true, WithdrawEnabled: true})
 		og.AssetInfos = append(og.AssetInfos, oracletypes.AssetInfo{Denom: d.Denom, Display: d.Display, Decimal: d.Decimals})
 	}
+	for _, d := range []string{"ueden", "uedenb"} {
+		ap.EntryList = append(ap.EntryList, atypes.Entry{BaseDenom: d, Denom: d, Decimals: 6, DisplayName: d, CommitEnabled: true, WithdrawEnabled: true})
+	}
 	gs[atypes.ModuleName] = cdc.MustMarshalJSON(ap)
 	for _, f := range feeders {
 		og.PriceFeeders = append(og.PriceFeeders, oracletypes.PriceFeeder{Feeder: f.Addr.String(), IsActive: true})
@@ -350,6 +363,38 @@ func BuildGenesis(a *app.ElysApp, cfg Config, all []*Actor, feeders []*Actor, vo
 	gg.Params.MinDeposit = sdk.NewCoins(sdk.NewCoin("uelys", math.NewInt(1000)))
 	gg.Params.ExpeditedMinDeposit = sdk.NewCoins(sdk.NewCoin("uelys", math.NewInt(5000)))
 	gs[govtypes.ModuleName] = cdc.MustMarshalJSON(&gg)
+
+	var cmg commitmenttypes.GenesisState
+	cdc.MustUnmarshalJSON(gs[commitmenttypes.ModuleName], &cmg)
+	if cfg.VestBlocks != 0 {
+		cmg.Params.VestingInfos[0].NumBlocks = cfg.VestBlocks
+	}
+	if cfg.VestNowFactor != 0 {
+		cmg.Params.VestingInfos[0].VestNowFactor = math.NewInt(cfg.VestNowFactor)
+	}
+	if cfg.MaxVestings != 0 {
+		cmg.Params.VestingInfos[0].NumMaxVestings = cfg.MaxVestings
+	}
+	cmg.Params.EnableVestNow = cfg.EnableVestNow
+	if cfg.EdenClaimed > 0 {
+		for _, ac := range all {
+			cmg.Commitments = append(cmg.Commitments, &commitmenttypes.Commitments{Creator: ac.Addr.String(), Claimed: sdk.NewCoins(sdk.NewCoin("ueden", math.NewInt(cfg.EdenClaimed)))})
+		}
+	}
+	gs[commitmenttypes.ModuleName] = cdc.MustMarshalJSON(&cmg)
+	if cfg.Inflation != 0 {
+		var tg tokenomicstypes.GenesisState
+		cdc.MustUnmarshalJSON(gs[tokenomicstypes.ModuleName], &tg)
+		tg.TimeBasedInflationList = append(tg.TimeBasedInflationList, tokenomicstypes.TimeBasedInflation{StartBlockHeight: 1, EndBlockHeight: 100_000_000, Description: "verif", Authority: authtypes.NewModuleAddress(govtypes.ModuleName).String(),
+			Inflation: &tokenomicstypes.InflationEntry{LmRewards: cfg.Inflation, IcsStakingRewards: cfg.Inflation, CommunityFund: cfg.Inflation / 10, StrategicReserve: cfg.Inflation / 10, TeamTokensVested: cfg.Inflation / 10}})
+		gs[tokenomicstypes.ModuleName] = cdc.MustMarshalJSON(&tg)
+	}
+	if cfg.BlocksPerYear != 0 {
+		var pg parametertypes.GenesisState
+		cdc.MustUnmarshalJSON(gs[parametertypes.ModuleName], &pg)
+		pg.Params.TotalBlocksPerYear = cfg.BlocksPerYear
+		gs[parametertypes.ModuleName] = cdc.MustMarshalJSON(&pg)
+	}
 
 	if cfg.GenesisMut != nil {
 		cfg.GenesisMut(a, gs)
